@@ -357,14 +357,19 @@ def shift_implementation(run, rng, n):
         H = hamiltonians.Hamiltonian(nq, (A + A.conj().T) / 2)
         c = mk(ths)
         idx = rng.randrange(len(names))
-        got = parameter_shift(c, H, idx)
+        psi0 = None
+        if i % 2:
+            v = np.array([rng.randint(-3, 3) + 1j * rng.randint(-3, 3) for _ in range(4)], dtype=complex)
+            v[0] += 4
+            psi0 = v / np.linalg.norm(v)
+        got = parameter_shift(c, H, idx, initial_state=psi0)
         after = [float(p[0]) for p in c.get_parameters()]
         r = 0.5
         s = np.pi / (4 * r)
         fp, fm = list(ths), list(ths)
         fp[idx] += s
         fm[idx] -= s
-        want = r * (H.expectation(mk(fp)().state()) - H.expectation(mk(fm)().state()))
+        want = r * (H.expectation(mk(fp)(initial_state=psi0).state()) - H.expectation(mk(fm)(initial_state=psi0).state()))
         run.case(["psr_impl", names, idx])
         if abs(got - float(np.real(want))) > 1e-10 or any(abs(a - b) > 1e-12 for a, b in zip(after, ths)):
             bad += 1
